@@ -294,6 +294,30 @@ var Probes = []Probe{
 			}
 			return false, ""
 		}},
+	{ID: "O38", Props: []string{"C17"}, Input: `format("%d", "s")`, WhatFail: "a documented verb on an operand type it is not documented for prints the Tengo value where Go's fmt prints the Go type: %!d(\"s\"=\"s\") for %!d(string=s)",
+		Run: formatVsGo("%d", &tengo.String{Value: "s"}, "s")},
+	{ID: "O39", Props: []string{"C17"}, Input: `format("%c", bytes("ab"))`, WhatFail: "a bytes operand under a documented verb other than s q x X v d prints nothing where Go's fmt prints the element list: \"\" for [a b]",
+		Run: formatVsGo("%c", &tengo.Bytes{Value: []byte("ab")}, []byte("ab"))},
+}
+
+// formatVsGo: tengo.Format on one operand against fmt.Sprintf on the corresponding Go value.
+func formatVsGo(f string, o tengo.Object, g interface{}) func() (bool, string) {
+	return func() (fails bool, obs string) {
+		defer func() {
+			if p := recover(); p != nil {
+				fails, obs = true, fmt.Sprint("panic: ", p)
+			}
+		}()
+		got, err := tengo.Format(f, o)
+		want := fmt.Sprintf(f, g)
+		if err != nil {
+			return true, err.Error()
+		}
+		if got != want {
+			return true, fmt.Sprintf("tengo %q, Go %q", got, want)
+		}
+		return false, ""
+	}
 }
 
 // KnownEntry mirrors one entry of known_findings.json.
